@@ -5,6 +5,7 @@ package resource_info
 
 import (
 	"fmt"
+	"github.com/NVIDIA/KAI-scheduler/pkg/scheduler/k8s_internal"
 	"strings"
 
 	"github.com/NVIDIA/KAI-scheduler/pkg/common/constants"
@@ -182,8 +183,16 @@ func BuildResourceVectorMap(nodeResources []v1.ResourceList) *ResourceVectorMap 
 	return result
 }
 
+// convertResourceToFloat64 uses the same units as ResourceFromResourceList, so that a vector built from a
+// resource list agrees with the vector of the structured resource built from the same list.
 func convertResourceToFloat64(rName v1.ResourceName, rQuant resource.Quantity) float64 {
-	if rName == v1.ResourceCPU {
+	switch {
+	case rName == v1.ResourceCPU:
+		return float64(rQuant.MilliValue())
+	case rName == v1.ResourceMemory, rName == v1.ResourcePods, rName == v1.ResourceEphemeralStorage,
+		rName == v1.ResourceStorage, isGpuResource(string(rName)), IsMigResource(rName):
+		return float64(rQuant.Value())
+	case k8s_internal.IsScalarResourceName(rName):
 		return float64(rQuant.MilliValue())
 	}
 	return float64(rQuant.Value())
